@@ -133,6 +133,8 @@ class extract_visitor(NodeVisitor):
             if not isinstance(nn, Name):
                 # for self.x in ...: / for k, d[k] in ...: assigned on every
                 # iteration, after the names left of it
+                if isinstance(nn, Attribute):
+                    self.top.add_attr_assign(self.flow.scope, nn, None)
                 self.visit_in_flow(nn, body_start)
                 continue
             name = nn  # type: ast.Name
@@ -342,7 +344,10 @@ class extract_visitor(NodeVisitor):
                 # item are evaluated: with A() as (a, d[a]), B(a) as b: ...
                 for nn, _idx in get_indexes_for_target(it.optional_vars, [], []):
                     if not isinstance(nn, Name):
-                        continue  # with ... as self.x: / with ... as d[k]:
+                        # with ... as self.x: / with ... as d[k]:
+                        if isinstance(nn, Attribute):
+                            self.top.add_attr_assign(self.flow.scope, nn, None)
+                        continue
                     name = nn  # type: ast.Name
                     loc = name.lineno, name.col_offset + len(name.id)
                     self.flow.add_name(AssignedName(name.id, loc, np(name), node))
